@@ -273,7 +273,11 @@ def parse_header(source: BinaryIO) -> Tuple[OFXHeaderType, str]:
 
         # OFX header is read by nice clean machines, not meatbags -
         # should not contain 💩, 漢字, or what have you.
-        line = source.readline().decode("ascii")
+        # The line may run on into the body, though (no newline, or bare \r,
+        # after the header), so bytes outside ASCII mustn't raise here; they
+        # are replaced one for one, which keeps offsets into the text
+        # equal to offsets into the file.
+        line = source.readline().decode("ascii", errors="replace")
         if line.strip():
             found_header = True
             break
@@ -302,7 +306,7 @@ def parse_header(source: BinaryIO) -> Tuple[OFXHeaderType, str]:
         # First line is OFXHEADER; need to read next 8 lines for a fixed
         # total of 9 fields required by OFX v1 spec.
         for _ in range(8):
-            rawheader += source.readline().decode("ascii")
+            rawheader += source.readline().decode("ascii", errors="replace")
 
         header, header_end_offset = OFXHeaderV1.parse(rawheader)
 
